@@ -101,7 +101,9 @@ def handle : List Sx → Sx
     | _, _, _, _ => Sx.bad
   | [.atom "convtable"] =>
     Sx.ok (.list (rows.map fun r => .list [.str r.name, Sx.ofInt r.base,
-      encConv (doInt intOuterCaught intInnerCaught r), encConv (doFloat floatCaught r)]))
+      encConv (intOut r), encConv (floatOut r)]))
+  | [.atom "conv-escapes"] =>
+    Sx.ok (.list (escapingRows.map fun (f, n, b, c) => .list [.str f, .str n, Sx.ofInt b, .str c]))
   | [.atom "spaces", lim] =>
     match lim.toNat? with
     | some lim => Sx.ok (.list [Sx.ofNats ((List.range lim).filter fun n => isPySpace (Char.ofNat n)),
